@@ -484,6 +484,13 @@ def attr_model(I, obj, name):
         return file_method(I, obj, name)
     if isinstance(obj, StatResult):
         return getattr(obj, name)
+    from . import models_str as S
+    if isinstance(obj, _re.Pattern):
+        r = S.pattern_attr(I, obj, name)
+        if r is not NotImplemented:
+            return r
+    if isinstance(obj, S.MatchObj):
+        return S.match_attr(I, obj, name)
     from . import models_tahoe as T
     if isinstance(obj, T.HashObj):
         return T.hash_attr(I, obj, name)
